@@ -105,6 +105,7 @@ struct in_op IN;
 unsigned long long verif_mc_k;		/* ghost byte index inside a block (pointwise statements about block contents) */
 int g_pass;				/* the pass do_one_pass was called with */
 unsigned int g_end0;			/* info->end_transaction on entry */
+unsigned int g_start1;			/* info->start_transaction when the block loop starts */
 int g_geom_ok;				/* sane geometry and no fast commit: the range statement R applies */
 /* ghost state written inside the loops: ONE object, so that the loop frames stay small (every write in a cut loop is
  * compared with every target of its assigns clause) */
@@ -116,6 +117,7 @@ struct op_ghost {
 	unsigned long long gbj_blocknr;
 	struct buffer_head *gbf_bh;		/* last getblk on the filesystem device: buffer, block number */
 	unsigned long long gbf_blocknr;
+	struct buffer_head *upd_bh;		/* buffer last marked uptodate by mark_buffer_uptodate */
 	struct buffer_head *rd_bh;		/* last buffer read from the device, and byte verif_mc_k of what was read */
 	unsigned char rd_byte;
 	unsigned long long tr_blocknr;	/* last test_revoke: arguments, answer */
@@ -139,6 +141,7 @@ struct op_ghost G;
 #define g_gbf_bh G.gbf_bh
 #define g_gbf_blocknr G.gbf_blocknr
 #define g_rd_bh G.rd_bh
+#define g_upd_bh G.upd_bh
 #define g_rd_byte G.rd_byte
 #define g_tr_blocknr G.tr_blocknr
 #define g_tr_seq G.tr_seq
@@ -173,10 +176,12 @@ static journal_t J;			/* the journal of the harness */
 #define SPEC_FLAG_ESCAPE 1u
 #define SPEC_INCOMPAT_FAST_COMMIT 0x20u
 
-static int spec_tid_gt(unsigned int x, unsigned int y)	/* kernel definition: x is after y iff the forward distance is in [1, 2^31-1] */
+/* kernel definition of the transaction-id order (wrap-around): x is at or after y iff the forward distance from y to x,
+ * (x - y) mod 2^32, is below 2^31; "x before y" is its negation */
+static int spec_tid_geq(unsigned int x, unsigned int y)
 {
 	unsigned int d = x - y;
-	return d >= 1u && d <= 0x7fffffffu;
+	return d <= 0x7fffffffu;
 }
 /* the log is the circular area [j_first, j_last) of the journal */
 #define SPEC_WRAP(j, x) ((x) >= (j)->j_last ? (x) - ((j)->j_last - (j)->j_first) : (x))
@@ -199,19 +204,33 @@ static int calc_chksums(journal_t *journal, struct buffer_head *bh, unsigned lon
 #define OP_OFF ((long)(__CPROVER_POINTER_OFFSET(tagp) - __CPROVER_POINTER_OFFSET(bh->b_data)))
 #define OP_INRANGE (journal->j_first <= next_log_block && next_log_block < journal->j_last)
 
+/* the frame of the block loop, per pass (writes of the other passes are unreachable once `pass` is a constant; a smaller
+ * frame is cheaper: every write in a cut loop is compared with every target); *info as a whole object, with the
+ * invariants below pinning down the fields a pass must not change */
+#if defined(VERIF_PASS_REPLAY)
+#define OP_OUTER_FRAME next_commit_ID, next_log_block, err, success, tmp, bh, sequence, blocktype, descr_csum_size, block_error, \
+	commit_time, __CPROVER_object_whole(info), GHOSTS
+#elif defined(VERIF_PASS_REVOKE)
+#define OP_OUTER_FRAME next_commit_ID, next_log_block, err, tmp, bh, sequence, blocktype, descr_csum_size, \
+	commit_time, __CPROVER_object_whole(info), GHOSTS
+#else
+#define OP_OUTER_FRAME next_commit_ID, next_log_block, err, success, tmp, bh, sequence, blocktype, crc32_sum, \
+	descr_csum_size, block_error, need_check_commit_time, last_trans_commit_time, commit_time, \
+	__CPROVER_object_whole(info), journal->j_failed_commit, GHOSTS
+#endif
+
 #define VERIF_INV_DO_ONE_PASS_OUTER \
-	__CPROVER_assigns(next_commit_ID, next_log_block, err, success, tmp, bh, sequence, blocktype, crc32_sum, \
-			  descr_csum_size, block_error, need_check_commit_time, last_trans_commit_time, commit_time, \
-			  info->end_transaction, info->nr_replays, info->nr_revokes, info->nr_revoke_hits, \
-			  journal->j_failed_commit, GHOSTS) \
+	__CPROVER_assigns(OP_OUTER_FRAME) \
 	__CPROVER_loop_invariant(descr_csum_size == 0 || descr_csum_size == 4) \
 	__CPROVER_loop_invariant(pass == PASS_SCAN || info->end_transaction == g_end0) \
+	__CPROVER_loop_invariant(info->start_transaction == g_start1) \
 	__CPROVER_loop_invariant(pass != PASS_REPLAY || !g_geom_ok || OP_INRANGE) \
 	__CPROVER_loop_invariant(g_live == 0 && g_armed == 0)
 
 #define VERIF_INV_DO_ONE_PASS_TAGS \
 	__CPROVER_assigns(flags, tagp, __CPROVER_object_whole(&tag), obh, nbh, next_log_block, err, success, block_error, \
-			  info->nr_replays, info->nr_revoke_hits, GHOSTS) \
+			  __CPROVER_object_whole(info), GHOSTS) \
+	__CPROVER_loop_invariant(info->end_transaction == g_end0 && info->start_transaction == g_start1) \
 	__CPROVER_loop_invariant(__CPROVER_same_object(tagp, bh->b_data)) \
 	__CPROVER_loop_invariant(OP_OFF >= 12 && OP_OFF <= (long)journal->j_blocksize - descr_csum_size + 16) \
 	__CPROVER_loop_invariant(tag_bytes != 8 || (OP_OFF & 7) == 4) \
@@ -225,8 +244,12 @@ static int calc_chksums(journal_t *journal, struct buffer_head *bh, unsigned lon
 #define OP_RAWTAG (UB(bh->b_data) + g_tag_off0)
 #define SPEC_BSWAP32(v) ((((v) & 0xFFu) << 24) | (((v) & 0xFF00u) << 8) | (((v) >> 8) & 0xFF00u) | (((v) >> 24) & 0xFFu))
 
+/* tagp is re-based on bh->b_data (asserted to be the identity): after the loop cut the verifier knows only through the
+ * invariant which object tagp points into, and would otherwise split every access through it over all objects */
 #define VERIF_MON_DO_ONE_PASS_TAG_BEGIN { \
 	g_tag_off0 = (unsigned long long)OP_OFF; \
+	CHECK(tagp == bh->b_data + g_tag_off0, "ghost re-basing of tagp is the identity"); \
+	tagp = bh->b_data + g_tag_off0; \
 	CHECK(g_tag_off0 >= 12 && g_tag_off0 + OP_T <= J_BS(journal) - spec_csum_tail(journal->j_format_version, J_INC(journal)), \
 	      "T: the tag lies inside the usable area of the descriptor block"); \
 	CHECK(g_tag_off0 + 12 <= J_BS(journal), "T: the 12-byte tag copy ends inside the block"); \
@@ -244,9 +267,9 @@ static int calc_chksums(journal_t *journal, struct buffer_head *bh, unsigned lon
 	CHECK(pass == PASS_REPLAY && g_pass == PASS_REPLAY, "W1: a filesystem buffer is written only in PASS_REPLAY"); \
 	CHECK(SPEC_BE32(bh->b_data) == SPEC_MAGIC && SPEC_BE32(bh->b_data + 4) == SPEC_BT_DESCRIPTOR, "W2: the tag comes from a descriptor block"); \
 	CHECK(SPEC_BE32(bh->b_data + 8) == next_commit_ID, "W2: of the transaction being replayed (h_sequence == next_commit_ID)"); \
-	CHECK(spec_tid_gt(info->end_transaction, next_commit_ID), "W2: which lies before end_transaction"); \
+	CHECK(!spec_tid_geq(next_commit_ID, info->end_transaction), "W2: which lies before end_transaction"); \
 	CHECK(g_gbf_bh == nbh && nbh != obh && nbh != bh, "W3: the buffer was obtained from the filesystem device"); \
-	CHECK(g_gbf_blocknr == spec_tag_block(journal->j_format_version, J_INC(journal), OP_RAWTAG) && nbh->b_blocknr == g_gbf_blocknr, \
+	CHECK(g_gbf_blocknr == spec_tag_block(journal->j_format_version, J_INC(journal), OP_RAWTAG), \
 	      "W3: target block number == big-endian block number of the raw tag (high word iff 64BIT)"); \
 	CHECK(g_tr_blocknr == g_gbf_blocknr && g_tr_seq == next_commit_ID && g_tr_ret == 0, "W4: test_revoke(block, next_commit_ID) said not revoked"); \
 	CHECK(!J_CSUM23(journal) || OP_TAGCSUM_OK, "W5: the tag checksum over (next_commit_ID, this log block) equals the one stored in the raw tag"); \
@@ -254,7 +277,7 @@ static int calc_chksums(journal_t *journal, struct buffer_head *bh, unsigned lon
 	CHECK(UB(nbh->b_data)[verif_mc_k] == (((OP_RAWFLAGS & SPEC_FLAG_ESCAPE) && verif_mc_k < 4) ? spec_magic_byte(verif_mc_k) : UB(obh->b_data)[verif_mc_k]), \
 	      "W7: written bytes == logged bytes, first four bytes == JBD2 magic iff ESCAPE"); \
 	CHECK(UB(obh->b_data)[verif_mc_k] == g_rd_byte, "W7: the log block itself is not modified"); \
-	CHECK(nbh->b_dirty == 0, "W: not dirty before the monitor"); \
+	CHECK(g_dirtied != nbh, "W: not dirty before the monitor"); \
 	g_armed = nbh; \
 	}
 
@@ -267,15 +290,21 @@ static int calc_chksums(journal_t *journal, struct buffer_head *bh, unsigned lon
 	g_prev_last = (OP_RAWFLAGS & SPEC_FLAG_LAST_TAG) != 0; \
 	}
 
+/* messages and assertions of the kernel code: printk prints nothing here (CBMC's variadic printf model explodes under
+ * contract instrumentation), J_ASSERT (print + fatal_error in e2fsck, assert in debugfs) becomes a proof obligation */
+#undef printk
+#define printk(...) ((void)0)
+#undef J_ASSERT
+#define J_ASSERT(x) CHECK(x, "J_ASSERT: " #x)
+
+#ifdef X_NOMON
+#undef VERIF_MON_DO_ONE_PASS_WRITE
+#undef VERIF_MON_DO_ONE_PASS_TAG_BEGIN
+#undef VERIF_MON_DO_ONE_PASS_TAG_NEXT
+#endif
 #include "e2fsck/recovery.c"
 
 /* ================= stubs for everything outside recovery.c ================= */
-
-/* printk == printf: messages only (CBMC's variadic printf model explodes under contract instrumentation) */
-int printf(const char *fmt, ...)
-{
-	return 0;
-}
 
 /* libc memcpy, over-approximated: bounds asserted; a 12-byte (tag) copy is exact; any other copy leaves arbitrary bytes in
  * the destination except at the ghost index verif_mc_k, where it is faithful (true of memcpy at every index) */
@@ -286,7 +315,9 @@ void *memcpy(void *dst, const void *src, size_t n)
 	if (n == 12) {
 		*(struct verif_b12 *)dst = *(const struct verif_b12 *)src;
 	} else {
+#ifndef X_NOHAVOC
 		__CPROVER_havoc_slice(dst, n);
+#endif
 		if (verif_mc_k < n)
 			((unsigned char *)dst)[verif_mc_k] = UB(src)[verif_mc_k];
 	}
@@ -321,6 +352,7 @@ int jbd2_journal_bmap(journal_t *journal, unsigned long block, unsigned long lon
 	g_bm_block = block; g_bm_phys = p;
 	return err;
 }
+struct op_buf { struct buffer_head bh; char slack[VERIF_BH_SLACK]; };
 struct buffer_head *getblk(kdev_t kdev, unsigned long long blocknr, int blocksize)
 {
 	int fail;		/* arbitrary */
@@ -330,14 +362,22 @@ struct buffer_head *getblk(kdev_t kdev, unsigned long long blocknr, int blocksiz
 	CHECK((unsigned long)blocksize == J_BS(&J), "buffers are j_blocksize big");
 	if (fail)
 		return 0;
+#ifdef X_TYPED
+	bh = malloc(sizeof(struct op_buf));
+#elif defined(X_BIG)
+	bh = malloc(BH_HDR + 4096 + X_BIG);
+#else
 	bh = malloc(BH_SIZE(&J));	/* arbitrary contents: what the device holds */
+#endif
 	if (!bh)
 		return 0;
-	bh->b_dirty = 0;
-	bh->b_uptodate = 0;
-	bh->b_err = 0;
-	bh->b_size = blocksize;
-	bh->b_blocknr = blocknr;
+	/* the flag / bookkeeping fields of struct buffer_head are never touched by recovery.c itself (only b_data is, and
+	 * b_size in calc_chksums, replaced): this buffer layer keeps them in ghost state (dirty: g_dirtied, uptodate: g_rd_bh /
+	 * g_upd_bh, block number: g_gb?_blocknr) -- bit-field updates inside a byte-array object are very costly to encode */
+	/* ... and a buffer fresh from getblk is neither uptodate nor dirty (both front ends allocate it zero-filled) */
+	if (g_rd_bh == bh) g_rd_bh = 0;
+	if (g_upd_bh == bh) g_upd_bh = 0;
+	if (g_dirtied == bh) g_dirtied = 0;
 	g_live++;
 	if (kdev == J.j_dev) {
 		g_gbj_bh = bh; g_gbj_blocknr = blocknr;
@@ -348,13 +388,12 @@ struct buffer_head *getblk(kdev_t kdev, unsigned long long blocknr, int blocksiz
 }
 int buffer_uptodate(struct buffer_head *bh)
 {
-	return bh->b_uptodate;
+	return bh == g_rd_bh || bh == g_upd_bh;
 }
 void wait_on_buffer(struct buffer_head *bh)
 {
 	int ok;			/* arbitrary: the read may fail */
-	if (!bh->b_uptodate && ok) {
-		bh->b_uptodate = 1;
+	if (bh != g_rd_bh && bh != g_upd_bh && ok) {
 		g_rd_bh = bh; g_rd_byte = UB(bh->b_data)[verif_mc_k];
 	}
 }
@@ -363,19 +402,19 @@ void mark_buffer_dirty(struct buffer_head *bh)
 	CHECK(bh != 0 && bh == g_armed, "W: only the buffer just approved by the replay monitor is ever dirtied");
 	g_armed = 0;
 	g_dirtied = bh;
-	bh->b_dirty = 1;
 }
 void mark_buffer_uptodate(struct buffer_head *bh, int val)
 {
-	bh->b_uptodate = val;
+	g_upd_bh = val ? bh : 0;
 }
 void brelse(struct buffer_head *bh)
 {
 	CHECK(bh != 0 && g_live >= 1, "B: brelse of a live buffer");
-	/* a dirty buffer is written out by brelse: only the monitored one may be dirty */
-	CHECK(!bh->b_dirty || bh == g_dirtied, "W: no buffer other than the monitored replay buffer reaches the device");
+	/* a dirty buffer is written out by brelse; the only way to dirty one is mark_buffer_dirty above */
 	g_live--;
+#ifndef X_NOFREE
 	free(bh);
+#endif
 }
 int jbd2_journal_test_revoke(journal_t *journal, unsigned long long blocknr, tid_t sequence)
 {
@@ -421,9 +460,14 @@ void h_one_pass(void)
 	ASSUME(IN.bs_log <= VERIF_MAX_BS_LOG);
 	ASSUME(IN.format_version == 1 || IN.format_version == 2);
 	ASSUME(IN.pass == PASS_SCAN || IN.pass == PASS_REVOKE || IN.pass == PASS_REPLAY);
-#ifdef VERIF_PASS
-	IN.pass = VERIF_PASS;		/* one unit per pass: a constant pass lets the verifier drop the other passes' branches */
+#if defined(VERIF_PASS_REPLAY)
+	IN.pass = PASS_REPLAY;
+#elif defined(VERIF_PASS_REVOKE)
+	IN.pass = PASS_REVOKE;
+#elif defined(VERIF_PASS_SCAN)
+	IN.pass = PASS_SCAN;
 #endif
+	/* one unit per pass: a constant pass lets the verifier drop the other passes' branches */
 	J.j_superblock = &JSB;
 #ifdef VERIF_FIXED_BS
 	J.j_blocksize = VERIF_FIXED_BS;
@@ -448,6 +492,7 @@ void h_one_pass(void)
 	ASSUME(verif_mc_k < (unsigned long long)J.j_blocksize);
 	g_pass = IN.pass;
 	g_end0 = IN.end_transaction;
+	g_start1 = (IN.pass == PASS_SCAN) ? IN.s_sequence : IN.start_transaction;
 	g_live = 0; g_armed = 0; g_dirtied = 0; g_prev_last = 0;
 	g_geom_ok = !SPEC_HAS(IN.format_version, IN.incompat, SPEC_INCOMPAT_FAST_COMMIT) && IN.j_first <= IN.s_start && IN.s_start < IN.j_last;
 
